@@ -90,7 +90,9 @@ def _chunk_worker(args):
         m.update(res["digest"].encode())
         if len(out["digests"]) < 8:
             out["digests"].append((index, res["digest"]))
-        if res["nt"] is not None:
+        if res.get("nts"):
+            out["nt"].extend(res["nts"])
+        elif res["nt"] is not None:
             out["nt"].append(res["nt"])
         for k, v in res["counters"].items():
             out["counters"][k] = out["counters"].get(k, 0) + v
@@ -98,7 +100,7 @@ def _chunk_worker(args):
         out["ood"] += 1 if res["ood"] else 0
         out["aborted_other"] += 1 if res["aborted_other"] else 0
         if res["violation"] is not None:
-            out["violations"].append((index, res["violation"], case))
+            out["violations"].append((index, res["violation"], res.get("case") or case))
         if want_samples and res["nt"] is not None and len(out["samples"]) < want_samples:
             out["samples"].append({"run": index, "seed": seed, "case": case, "trace": res.get("trace"),
                                    "digest": res["digest"]})
@@ -205,22 +207,22 @@ def replay(path) -> int:
     timeout_s = max(t["run_timeout_s"] for t in check.TIERS.values())
     res, tb = guarded_run(check, doc["case"], timeout_s)
     if tb is not None:
-        print(f"HARNESS-ERROR property={pid}\n{tb}")
+        core.out(f"HARNESS-ERROR property={pid}\n{tb}")
         return 2
-    print(f"replay property={pid} digest={res['digest']} recorded_digest={doc.get('event_log_digest')}")
+    core.out(f"replay property={pid} digest={res['digest']} recorded_digest={doc.get('event_log_digest')}")
     if res.get("trace"):
         for line in res["trace"][-40:]:
-            print("   ", line)
+            core.out("   ", line)
     if res["violation"] is None:
-        print(f"replay: no violation reproduced (recorded kind={doc.get('kind')} site={doc.get('site')})")
+        core.out(f"replay: no violation reproduced (recorded kind={doc.get('kind')} site={doc.get('site')})")
         return 0
     v = res["violation"]
-    print(f"replay: kind={v['kind']} site={v['site']}\n   {v['detail'][:1500]}")
+    core.out(f"replay: kind={v['kind']} site={v['site']}\n   {v['detail'][:1500]}")
     f = match_finding(load_findings(), pid, v)
     if f:
-        print(f"KNOWN-FINDING: property={pid} {f['text']}")
+        core.out(f"KNOWN-FINDING: property={pid} {f['text']}")
         return 0
-    print(f"VIOLATION property={pid} replay={path}")
+    core.out(f"VIOLATION property={pid} replay={path}")
     return 1
 
 
@@ -246,7 +248,7 @@ def run_check(pid: str, tier: str, root_seed: int, workers=None, budget_override
     workers = workers or int(os.environ.get("VERIF_WORKERS", "0")) or min(16, os.cpu_count() or 4)
     runs, chunk, budget = cfg["runs"], cfg["chunk"], cfg["budget_s"]
     timeout_s = cfg["run_timeout_s"]
-    say = (lambda *a: None) if quiet else (lambda *a: print(*a, flush=True))
+    say = (lambda *a: None) if quiet else core.out
     say(f"[{pid}] tier={tier} VERIF_SEED={root_seed} runs={runs} workers={workers} budget={budget}s "
         f"repo={core.REPO} repo_digest={core.repo_digest()}")
 
@@ -322,7 +324,7 @@ def run_check(pid: str, tier: str, root_seed: int, workers=None, budget_override
         if f:
             line = f"KNOWN-FINDING: property={pid} {f['text']}"
             known_lines.append(line)
-            print(line, flush=True)
+            core.out(line)
             continue
         if len(reported) >= 6:
             continue
@@ -350,7 +352,7 @@ def run_check(pid: str, tier: str, root_seed: int, workers=None, budget_override
             agg["harness"].append((index, f"violation kind={v['kind']} site={v['site']} did not replay in a fresh "
                                           f"interpreter:\n{out[-1500:]}"))
             continue
-        print(f"VIOLATION property={pid} replay={path}", flush=True)
+        core.out(f"VIOLATION property={pid} replay={path}")
         reported.append({"kind": res["violation"]["kind"], "site": res["violation"]["site"], "run": index,
                          "replay": path})
         exit_code = 1
@@ -358,9 +360,9 @@ def run_check(pid: str, tier: str, root_seed: int, workers=None, budget_override
     if agg["harness"] or pool_error:
         exit_code = exit_code or 2
         for index, tb in agg["harness"][:3]:
-            print(f"HARNESS-ERROR property={pid} run={index}\n{tb}", flush=True)
+            core.out(f"HARNESS-ERROR property={pid} run={index}\n{tb}")
         if pool_error:
-            print(f"HARNESS-ERROR property={pid} pool: {pool_error}", flush=True)
+            core.out(f"HARNESS-ERROR property={pid} pool: {pool_error}")
 
     # ------------------------------------------------------------------ evidence
     wall = time.time() - t0
@@ -375,7 +377,7 @@ def run_check(pid: str, tier: str, root_seed: int, workers=None, budget_override
     ev = {
         "property_id": pid, "tier": tier, "seed": root_seed, "level": check.LEVEL,
         "coverage": {
-            "evaluations": agg["n"],
+            "evaluations": counters.get(getattr(check, "EVAL_COUNTER", ""), agg["n"]),
             "distinct_nontrivial": len(agg["nt"]),
             "rule": check.RULE,
             "samples": [{"run": s["run"], "case": s["case"], "trace": (s["trace"] or [])[:60]}
